@@ -145,7 +145,25 @@ func (m c16) Run(ctx *core.Ctx) {
 			cs.Config = []string{gen.Pick(r, []string{"special:gopher", "special:foo8080", "special:barnoport"})}
 			if r.IntN(2) == 0 {
 				sch := gen.Pick(r, []string{"gopher", "foo", "bar", "GOPHER", "Foo"})
-				cs.Input = core.S(sch + gen.Pick(r, []string{"://", ":", ":/", ":\\\\", ":///"}) + gen.Host(r) + gen.Pick(r, []string{"", ":70", ":8080", ":71", ":"}) + gen.Path(r))
+				cs.Input = core.S(sch + gen.Pick(r, []string{"://", ":", ":/", ":\\\\", ":///"}) + gen.Host(r) + gen.Pick(r, []string{"", ":70", ":8080", ":71", ":", ":0", ":00", ":65535"}) + gen.Path(r))
+			}
+			// setter histories on URLs of such a parser (the table must also govern the override paths)
+			if r.IntN(3) == 0 {
+				if r.IntN(2) == 0 {
+					cs.Input = core.S(gen.Pick(r, []string{"foo://EX%41MPLE.com:8080/p", "gopher://h:70/x", "bar://h:0/", "zz://0x7f.1/p?q#f", "http://h/", "foo://u:p@h/", "zz://H%41/", "gopher://1.2.3.4/"}))
+					cs.HasBase = false
+				}
+				for k := 1 + r.IntN(4); k > 0; k-- {
+					st := gen.Pick(r, []string{"protocol", "protocol", "host", "hostname", "port", "pathname", "username"})
+					v := gen.SetterValue(r, st)
+					if st == "protocol" && r.IntN(2) == 0 {
+						v = gen.Pick(r, []string{"gopher", "foo", "bar", "http", "https", "zz", "file", "ws"})
+					}
+					if st == "port" && r.IntN(2) == 0 {
+						v = gen.Pick(r, []string{"0", "70", "8080", "80", "443", ""})
+					}
+					cs.Ops = append(cs.Ops, sOp(st, v))
+				}
 			}
 			if r.IntN(3) == 0 {
 				cs.Base, cs.HasBase = core.S(gen.Pick(r, []string{"gopher://h:70/a/b", "foo://h:8080/a/b?q", "bar://h/a/", "gopher://h/"})), true
@@ -569,6 +587,9 @@ func (c16) Exec(ctx *core.Ctx, cs *core.Case) {
 		conf := refmodel.Default(given.ToASCII)
 		conf.Special = c16Special(arg)
 		c16VsModel(ctx, p, conf, input, base, hasBase, "added special scheme "+arg)
+		if len(cs.Ops) > 0 {
+			c16SettersVsModel(ctx, p, conf, input, base, hasBase, cs.Ops, "added special scheme "+arg)
+		}
 
 	case clause == "collapse":
 		p := buildParser(cs.Config)
@@ -661,6 +682,35 @@ func c16VsModel(ctx *core.Ctx, p url.Parser, conf *refmodel.Config, input, base 
 	}
 	if dp, ok := conf.Special[o.snap.Scheme]; ok && dp != "" && o.snap.Port == dp {
 		ctx.Violate("default port of a special scheme not elided", "", o.snap.Port, what)
+	}
+}
+
+// c16SettersVsModel: setter history on a URL of a parser with a custom table, against the
+// reference model parameterised with the same table, compared after every step.
+func c16SettersVsModel(ctx *core.Ctx, p url.Parser, conf *refmodel.Config, input, base string, hasBase bool, ops []core.Op, what string) {
+	mu := modelParse(conf, input, base, hasBase)
+	o := run(ctx, p, input, base, hasBase)
+	if o.pan != nil || !o.ok || mu == nil || mu.Ten() != o.snap.Ten() {
+		return
+	}
+	u := o.u
+	for i, op := range ops {
+		if !obs.IsSetter(op.Name) {
+			continue
+		}
+		before := u.Href(false)
+		v := op.Arg(0)
+		if pan := ctx.Call(len(v)+len(before)+64, func() { obs.ApplySetter(u, op.Name, v) }); pan != nil {
+			ctx.Violate("setter panics under a "+firstWords(what), "", pan.String(), fmt.Sprintf("step %d %s on %q", i, op, before))
+			return
+		}
+		conf.ApplySetter(mu, op.Name, v)
+		ctx.Count("custom_table_setter_steps")
+		if want, got := mu.Ten(), obs.TakeTen(u); want != got {
+			ctx.Violate("under a "+firstWords(what)+" a setter differs from the standard's setter steps with the same table", want, got,
+				fmt.Sprintf("%s: step %d %s on %q: %s", what, i, op, before, strings.Join(obs.DiffTen(refmodel.TenNames, want, got), "; ")))
+			return
+		}
 	}
 }
 
